@@ -79,9 +79,23 @@ def check_missing(ctx):
             return 'lookup'
         return 'other:' + U(e)
 
+    def _is_plain_lookup(e):
+        """dict's own lookup, which never re-enters __missing__:
+        super().__getitem__(default) / dict.__getitem__(self, default)"""
+        if not (isinstance(e, ast.Call) and isinstance(
+                e.func, ast.Attribute) and e.func.attr == '__getitem__'
+                and not e.keywords):
+            return False
+        recv = U(e.func.value)
+        if recv in ('super()', 'super(Rules, self)') and len(
+                e.args) == 1 and U(e.args[0]) == subj:
+            return True
+        return recv == 'dict' and len(e.args) == 2 and U(
+            e.args[0]) == 'self' and U(e.args[1]) == subj
+
     def _is_lookup(e):
-        return isinstance(e, ast.Subscript) and U(e.value) == 'self' and \
-            U(e.slice) == subj
+        return (isinstance(e, ast.Subscript) and U(e.value) == 'self' and
+                U(e.slice) == subj) or _is_plain_lookup(e)
 
     def _lookup_only_try(cond):
         """The exception condition belongs to a try whose body can raise only
@@ -174,7 +188,9 @@ def check_missing(ctx):
             # re-enters __missing__ with that name as the key: when that
             # inner call can only raise KeyError, so does the lookup (the
             # path on which it is caught is enumerated separately)
-            inner = outcomes(av, in_store, True)
+            plain = all(p.outcome.expr is not None and _is_plain_lookup(
+                t.expand(p.outcome.expr)) for p in outs['lookup'])
+            inner = {'raise': []} if plain else outcomes(av, in_store, True)
             if set(inner) == {'raise'}:
                 del outs['lookup']
                 outs.setdefault('raise', [])
@@ -221,8 +237,9 @@ def check_raise_catch(ctx):
     raised = set()
     for n in walk_no_nested(miss.node):
         if isinstance(n, ast.Raise) and n.exc is not None:
-            c = n.exc.func if isinstance(n.exc, ast.Call) else n.exc
-            raised.add(prog.resolve(miss.module, c))
+            from ..util import raised_class_exprs
+            for c in raised_class_exprs(miss.node, n):
+                raised.add(prog.resolve(miss.module, c))
     if not raised:
         raise AnalysisError('__missing__ raises nothing')
     sites = []
